@@ -197,7 +197,7 @@ class FormGen:
                 if rng.random() < 0.8:
                     row[c] = self.text(refs_ok=False)
             if rng.random() < self.p.p_media and self.langs:
-                row[f"media::image{self.delim}{self.langs[0]}"] = f"img{i}.png"
+                row[f"media{self.delim}image{self.delim}{self.langs[0]}"] = f"img{i}.png"
             self.choices.append(row)
         return name
 
@@ -230,7 +230,7 @@ class FormGen:
             if rng.random() < 0.08:
                 self.put_translatable(row, "guidance_hint")
             if rng.random() < p.p_media:
-                row["media::image"] = "pic.png"
+                row[f"media{self.delim}image"] = "pic.png"
         if qtype == "calculate":
             row["calculation"] = self.expr("val")
             if rng.random() < p.p_trigger:
@@ -424,3 +424,52 @@ def as_csv(form: dict) -> str:
         for r in rows:
             w.writerow(["", *[r.get(h, "") for h in hs]])
     return sio.getvalue()
+
+
+# ---- extras: custom attribute columns, namespaces, settings attributes (C01/C05/C11) ---------------
+def add_custom_columns(rng: random.Random, form: dict, hostile: bool = False) -> dict:
+    """Adds bind::/instance::/body:: columns and namespaces/attribute:: settings.
+    hostile=True draws names that are not XML names or use undeclared prefixes (C01 findings F1/F2)."""
+    info = {"custom": [], "hostile": []}
+    survey = form["survey"]
+    qrows = [r for r in survey if r.get("name") and not r["type"].startswith(("begin", "end"))]
+    settings = form.setdefault("settings", [{}])[0]
+    if rng.random() < 0.5:
+        settings["namespaces"] = 'esri="http://esri.com/xforms" ex="http://example.com/x"'
+        if qrows and rng.random() < 0.8:
+            r = rng.choice(qrows)
+            col = rng.choice(["bind::esri:fieldType", "bind::ex:y", "instance::ex:tag", "body::esri:style"])
+            r[col] = adversarial_text(rng)
+            info["custom"].append(col)
+    if rng.random() < 0.4:
+        col = "attribute::" + rng.choice(["xyz", "a.b", "_c", "ex:k" if "namespaces" in settings else "k9"])
+        settings[col] = adversarial_text(rng)
+        info["custom"].append(col)
+    if qrows and rng.random() < 0.5:
+        r = rng.choice(qrows)
+        col = rng.choice(["bind::custom", "bind::jr:foo", "instance::extra", "body::accuracyThreshold", "instance::odk:k", "body::jr:x-y"])
+        r[col] = adversarial_text(rng)
+        info["custom"].append(col)
+    if hostile:
+        kind = rng.choice(["badname", "unbound", "control"])
+        if kind == "badname" and qrows:
+            r = rng.choice(qrows)
+            col = rng.choice(["bind::a b", "instance::x y", "body::1abc", "bind::a<b", "instance::", "bind::a\"b"])
+            r[col] = "v"
+            info["hostile"].append(("badname", col))
+        elif kind == "unbound" and qrows:
+            r = rng.choice(qrows)
+            col = rng.choice(["bind::foo:bar", "instance::zz:k", "body::nope:w"])
+            r[col] = "v"
+            info["hostile"].append(("unbound", col))
+        elif qrows:
+            r = rng.choice(qrows)
+            ch = rng.choice(["\x01", "\x0b", "\x1f", "￾", "\x00"])
+            key = next((k for k in r if k.startswith("label")), None)
+            if key is None:
+                key = "hint"
+                r.setdefault("hint", "h")
+            r[key] = r.get(key, "x") + ch
+            info["hostile"].append(("control", repr(ch)))
+    form["__info"] = [info]
+    return form
